@@ -141,6 +141,10 @@ func checkC14(c C14Case) *Violation {
 	want := modelChain(c.Key, c.Chain)
 	if c.CLI {
 		res := crd("", "info", "key", "conv", "--key", c.Key, "-c", c.Chain)
+		if c.Key == "C" && len(c.Chain)%2 == 1 {
+			// C is the default key: leaving the flag out is the same question
+			res = crd("", "info", "key", "conv", "-c", c.Chain)
+		}
 		switch (len(c.Key) + len(c.Chain)) % 5 {
 		case 1: // the answer goes to an -o file
 			res = Run{Argv: []string{"info", "key", "conv", "--key", c.Key, "-c", c.Chain, "-o", "@answer.txt"}, OutArg: "answer.txt"}.Exec()
